@@ -24,13 +24,11 @@ const watchdog = 3 * time.Second
 func upInfo(tok int) *message.UpstreamInfo {
 	var id uuid.UUID
 	id[0], id[1], id[15] = byte(tok>>8), byte(tok), 0x11
-	return &message.UpstreamInfo{SessionID: "s" + strconv.Itoa(tok), SourceNodeID: "n" + strconv.Itoa(tok%2), StreamID: id}
+	// upstreams 4k, 4k+2 (and 4k+1, 4k+3) share source node and session and differ in the stream id only
+	return &message.UpstreamInfo{SessionID: "s" + strconv.Itoa(tok/4), SourceNodeID: "n" + strconv.Itoa(tok%2), StreamID: id}
 }
 
-func upTok(i *message.UpstreamInfo) int {
-	n, _ := strconv.Atoi(strings.TrimPrefix(i.SessionID, "s"))
-	return n
-}
+func upTok(i *message.UpstreamInfo) int { return upTokOfStream(i.StreamID) }
 
 func upTokOfStream(id uuid.UUID) int { return int(id[0])<<8 | int(id[1]) }
 
@@ -42,6 +40,7 @@ type impl struct {
 	alias  uint32
 	// oracle bookkeeping
 	sent      []string       // chunks sent by the broker, in order: "seq/up"
+	sentOps   map[string][]string // sequence number -> [upstream word, groups word] of the chunk ops carrying it
 	returned  []string       // chunks returned by ReadDataPoints
 	acked     map[string]int // "up:seq" -> times acknowledged
 	upAlias   map[int]int    // upstream token -> alias announced
@@ -87,13 +86,18 @@ func (i *impl) open(qos, pre string) string {
 	}
 	i.down = d
 	i.alias = 1
+	i.acked, i.upAlias, i.idAlias, i.aliasUsed = map[string]int{}, map[int]int{}, map[int]int{}, map[string]string{}
 	for _, r := range i.b.LogFrom(0) {
 		if o, ok := r.Msg.(*message.DownstreamOpenRequest); ok {
 			i.alias = o.DesiredStreamIDAlias
+			// aliases pre-registered with the open request are taken: a later announcement must not reuse them for another data id
+			for al, id := range o.DataIDAliases {
+				i.idAlias[dp.Tok(id)] = int(al)
+				i.aliasUsed[fmt.Sprintf("d%d", al)] = id.Name
+			}
 		}
 	}
 	i.logPos = i.b.LogLen()
-	i.acked, i.upAlias, i.idAlias, i.aliasUsed = map[string]int{}, map[int]int{}, map[int]int{}, map[string]string{}
 	return "ok"
 }
 
@@ -155,10 +159,10 @@ func (i *impl) collectAcks(h *lp.H, wantRes int, expectAny bool) string {
 				}
 				i.upAlias[upTok(info)] = int(al)
 				key := fmt.Sprintf("u%d", al)
-				if prev, ok := i.aliasUsed[key]; ok && prev != info.SessionID {
+				if prev, ok := i.aliasUsed[key]; ok && prev != info.StreamID.String() {
 					h.Violate(fmt.Sprintf("upstream alias %d announced for two upstreams", al))
 				}
-				i.aliasUsed[key] = info.SessionID
+				i.aliasUsed[key] = info.StreamID.String()
 			}
 			for al, id := range a.DataIDAliases {
 				m.id[int(al)] = dp.Tok(id)
@@ -238,6 +242,10 @@ func (i *impl) exec(h *lp.H, op string) string {
 		seq, _ := strconv.Atoi(w[2])
 		i.b.Cur().Send(&message.DownstreamChunk{StreamIDAlias: i.alias, UpstreamOrAlias: up, StreamChunk: &message.StreamChunk{SequenceNumber: uint32(seq), DataPointGroups: parseWire(w[3])}, ExtensionFields: &message.DownstreamChunkExtensionFields{}})
 		i.sent = append(i.sent, w[2]+"/"+w[1])
+		if i.sentOps == nil {
+			i.sentOps = map[string][]string{}
+		}
+		i.sentOps[w[2]] = append(i.sentOps[w[2]], w[1], w[3])
 		return "ok"
 	case "readn":
 		k, _ := strconv.Atoi(w[1])
@@ -256,6 +264,28 @@ func (i *impl) exec(h *lp.H, op string) string {
 				continue
 			}
 			okReads++
+			// attribution, judged without the model: what the broker sent in full form must come back under exactly that identity
+			if so := i.sentOps[strconv.Itoa(int(c.SequenceNumber))]; len(so) == 2 {
+				if so[0][0] == 'U' && so[0][1:] != strconv.Itoa(upTok(c.UpstreamInfo)) {
+					h.Violate(fmt.Sprintf("chunk %d was sent for upstream %s in full form and reached the reader attributed to upstream %d", c.SequenceNumber, so[0][1:], upTok(c.UpstreamInfo)))
+				}
+				gw := strings.Split(so[1], "|")
+				if so[1] == "_" {
+					gw = nil
+				}
+				if len(gw) == len(c.DataPointGroups) {
+					for gi, g := range gw {
+						if strings.HasPrefix(g, "I") {
+							want := g[1:strings.Index(g, ":")]
+							if got := strconv.Itoa(dp.Tok(c.DataPointGroups[gi].DataID)); got != want {
+								h.Violate(fmt.Sprintf("chunk %d group %d was sent under data id %s in full form and reached the reader under data id %s", c.SequenceNumber, gi, want, got))
+							}
+						}
+					}
+				} else {
+					h.Violate(fmt.Sprintf("chunk %d was sent with %d groups and reached the reader with %d", c.SequenceNumber, len(gw), len(c.DataPointGroups)))
+				}
+			}
 			outs = append(outs, fmt.Sprintf("%d/%d/%s", c.SequenceNumber, upTok(c.UpstreamInfo), dp.ShowGroups(c.DataPointGroups)))
 			i.returned = append(i.returned, fmt.Sprintf("%d:%d", upTok(c.UpstreamInfo), c.SequenceNumber))
 		}
@@ -353,6 +383,14 @@ func (i *impl) oracle(h *lp.H) {
 		}
 		if !found {
 			h.Violate(fmt.Sprintf("chunk %s acknowledged %d time(s) but never returned", k, n))
+		}
+	}
+	// every upstream that reached the reader was announced under an alias (exactly once: duplicates are flagged when collected)
+	for _, k := range i.returned {
+		var up int
+		fmt.Sscanf(k, "%d:", &up)
+		if _, ok := i.upAlias[up]; !ok && i.acked[k] > 0 {
+			h.Violate(fmt.Sprintf("upstream %d reached the reader (chunk %s, acknowledged) but was never announced under an alias", up, k))
 		}
 	}
 }
